@@ -524,3 +524,69 @@ remaining!(misc_remaining_ctr128be, P16w2, 16, ctr::CtrCore<P16w2, ctr::flavors:
 remaining!(misc_remaining_ctr128le, P16w3, 16, ctr::CtrCore<P16w3, ctr::flavors::Ctr128LE>, u128, u128::MAX);
 #[cfg(not(kani))]
 remaining!(misc_remaining_belt, P16w2, 16, belt_ctr::BeltCtrCore<P16w2>, u128, u128::MAX);
+
+// ---------------------------------------------------------------- C01 / C13 / C14: the padded front-ends and slice-based construction
+// (dependency code driving the repo's block modes): round trip, ciphertext = block-level encryption of the padded
+// message, rejection of bad lengths without writing, IV slices of the wrong length
+#[cfg(not(kani))]
+use cipher::block_padding::{Iso7816, Pkcs7};
+#[cfg(not(kani))]
+macro_rules! padded {
+    ($h:ident, $cipher:ident, $b:expr, $ivn:expr, $enc:ty, $dec:ty, $pad:ty) => {
+        pub fn $h() {
+            let c = $cipher { k: fill() };
+            let iv: [u8; $ivn] = fill();
+            let msg: [u8; 3 * $b + 1] = fill();
+            let n = (nd::any::<u8>() as usize) % (3 * $b + 2);
+            let garbage: [u8; 4 * $b + 1] = fill();
+            // encrypt_padded_b2b: Ok iff the output has room for the padded message; nothing is written on Err
+            let room = (nd::any::<u8>() as usize) % (4 * $b + 2);
+            let padded_len = (n / $b + 1) * $b;
+            let mut out = garbage;
+            let r = <$enc>::inner_iv_init(c.clone(), &iv.into()).encrypt_padded_b2b::<$pad>(&msg[..n], &mut out[..room]);
+            let ct_len = match r {
+                Ok(ct) => { assert!(room >= padded_len, "padded encryption succeeded without room for the padding"); assert!(ct.len() == padded_len); ct.len() }
+                Err(_) => { assert!(room < padded_len, "padded encryption failed although the buffer is large enough"); assert!(out == garbage, "failed padded encryption wrote to the output"); return; }
+            };
+            assert!(out[ct_len..] == garbage[ct_len..], "padded encryption wrote beyond the ciphertext");
+            // the ciphertext is the block-level encryption of the padded message (same mode object, block API)
+            let mut blocks: [cipher::Block<$enc>; 4] = Default::default();
+            let mut k = 0;
+            while k < n { blocks[k / $b][k % $b] = msg[k]; k += 1; }
+            <$pad as cipher::block_padding::Padding<_>>::pad(&mut blocks[n / $b], n % $b);
+            let mut e2 = <$enc>::inner_iv_init(c.clone(), &iv.into());
+            e2.encrypt_blocks(&mut blocks[..n / $b + 1]);
+            let mut k = 0;
+            while k < ct_len { assert!(out[k] == blocks[k / $b][k % $b], "padded encryption differs from block encryption of the padded message"); k += 1; }
+            // decrypt_padded_b2b inverts it
+            let mut back = garbage;
+            let pt = <$dec>::inner_iv_init(c.clone(), &iv.into()).decrypt_padded_b2b::<$pad>(&out[..ct_len], &mut back[..ct_len]).expect("valid padded ciphertext rejected");
+            assert!(pt == &msg[..n], "padded round trip differs");
+            // a ciphertext whose length is not a multiple of the block size is rejected and nothing is written
+            let bad = (nd::any::<u8>() as usize) % (4 * $b + 1);
+            if bad % $b != 0 {
+                let mut o2 = garbage;
+                let r2 = <$dec>::inner_iv_init(c.clone(), &iv.into()).decrypt_padded_b2b::<$pad>(&out[..bad], &mut o2[..bad]);
+                assert!(r2.is_err(), "padded decryption accepted a length that is not a multiple of the block size");
+                assert!(o2 == garbage, "rejected padded decryption wrote to the output");
+            }
+            // construction from an IV slice: Ok iff the slice has the IV length
+            let ivl = (nd::any::<u8>() as usize) % (2 * $ivn + 2);
+            let ivs: [u8; 2 * $ivn + 2] = fill();
+            assert!(<$enc>::inner_iv_slice_init(c.clone(), &ivs[..ivl]).is_ok() == (ivl == $ivn), "IV slice length check");
+            assert!(<$dec>::inner_iv_slice_init(c.clone(), &ivs[..ivl]).is_ok() == (ivl == $ivn), "IV slice length check");
+        }
+    };
+}
+#[cfg(not(kani))]
+padded!(misc_padded_cbc, P4w2, 4, 4, cbc::Encryptor<P4w2>, cbc::Decryptor<P4w2>, Pkcs7);
+#[cfg(not(kani))]
+padded!(misc_padded_cbc16, P16w3, 16, 16, cbc::Encryptor<P16w3>, cbc::Decryptor<P16w3>, Iso7816);
+#[cfg(not(kani))]
+padded!(misc_padded_pcbc, P8w3, 8, 8, pcbc::Encryptor<P8w3>, pcbc::Decryptor<P8w3>, Pkcs7);
+#[cfg(not(kani))]
+padded!(misc_padded_ige, P4w2, 4, 8, ige::Encryptor<P4w2>, ige::Decryptor<P4w2>, Pkcs7);
+#[cfg(not(kani))]
+padded!(misc_padded_cfb, P4w1, 4, 4, cfb_mode::Encryptor<P4w1>, cfb_mode::Decryptor<P4w1>, Iso7816);
+#[cfg(not(kani))]
+padded!(misc_padded_ofb, P8w3, 8, 8, ofb::OfbCore<P8w3>, ofb::OfbCore<P8w3>, Pkcs7);
